@@ -15,7 +15,8 @@ run_one() { # kind id patch
   d=$TMPROOT/$id-$name; mkdir -p $d/repo $d/out $d/ev
   cp -a $TMPROOT/base/. $d/repo/
   (cd $d/repo && patch -p1 -s < $patch) || { echo "SELFTEST-ERROR $id/$name: patch does not apply"; return 1; }
-  out=$(VERIF_REPO=$d/repo VERIF_OUT=$d/out VERIF_EVIDENCE_DIR=$d/ev engine/bin/govc check $id quick 2>&1)
+  nr=""; [ $kind = mutant ] && nr=1   # must-fail runs skip the retry pass (any undischarged obligation counts)
+  out=$(VERIF_NO_RETRY=$nr VERIF_REPO=$d/repo VERIF_OUT=$d/out VERIF_EVIDENCE_DIR=$d/ev engine/bin/govc check $id quick 2>&1)
   nviol=$(echo "$out" | grep -c '^VIOLATION')
   rm -rf $d
   if [ $kind = mutant ]; then
